@@ -66,6 +66,9 @@ JOBS["knowledge"] = dict(module="MC_Knowledge", constants=dict(Slice="knowledge"
 JOBS["repl"] = dict(module="MC_Repl", constants=dict(Slice="repl", ReplDepth=12), subst=BIP_SUBST, query_bin=True,
                     invariants=["PromptsAndEnds", "InnerLoopEnds", "Emit"], timeout={"quick": 900, "thorough": 3600})
 
+JOBS["interleave"] = dict(module="MC_Interleave", constants=dict(Slice="interleave", IlDepth=12), subst=BIP_SUBST,
+                          invariants=["Independent", "Emit"], timeout={"quick": 900, "thorough": 3600})
+
 TIMER_INV = ["NoFalseTimeout", "RealAnswers", "FastUndisturbed", "NoLateFire", "CancelReturns", "Emit"]
 JOBS["timer"] = dict(module="MC_Timer", constants=dict(Slice="timer", NQ=2, GenerationFix="TRUE"), invariants=TIMER_INV,
                      spec="FairSpec", properties=["EveryQueryReports"],
@@ -151,8 +154,8 @@ PROPS = {
                 rule="constructor: every element sequence up to length 5 over atoms, numbers, variables, $_, complex terms, empty / nested / tailed lists x vbar, stepped through the make_linked_list machine of Lists.tla; "
                      "engine-built lists: every renamed term vector, append result and include/exclude result of the other slices, projected cell by cell with the well-formedness check",
                 assumptions=["a single-element sequence whose element is a list is outside the documented constructor contract", "parsed lists are checked by the syntax slices (C19)"]),
-    "C10": dict(jobs=["lists-rename", "unify-plain", "solver-lists", "solver-alias", "solver-andor", "trace-solver"], level="model_checking",
-                rule="every vector of 1-3 terms (clause-shaped: shared and distinct variable names, $_, empty / nested lists, tails, function terms) renamed from two counter values; plus every term pair of the unifier slice renamed and unified",
+    "C10": dict(jobs=["lists-rename", "unify-plain", "solver-lists", "solver-alias", "solver-andor", "trace-solver", "interleave"], level="model_checking",
+                rule="(interleave: two searches alive at the same time -- both queries built first, then every interleaving of their requests over a knowledge base with rule bodies that run out on re-entry and facts with variables of their own; Interleave.tla is the product of two single-search machines, every reply must be what that search observes alone; the solver slices also ask the same query twice in turn) every vector of 1-3 terms (clause-shaped: shared and distinct variable names, $_, empty / nested lists, tails, function terms) renamed from two counter values; plus every term pair of the unifier slice renamed and unified",
                 assumptions=["freshness in the middle of a search: after every replayed query each clause of the program is fetched with get_rule() one after the other; "
                              "and in every recorded run each head unification must have taken at least one fresh id per variable name of its clause (the engine's own counter, logged by the resolve hook)"]),
     "C16": dict(jobs=["bip-append", "trace-bip"], level="model_checking",
